@@ -56,6 +56,9 @@ def adi_cases(seed, count, tag, max_side=6):
             ka = [rng.randint(1, 4) for _ in range(n)]
             pool = [dict(Ks=ks), dict(Ka=ka), dict(Ks=ks), dict(Ks=rng.randint(1, 4)), dict(Ka=[ks] * n), dict(Ka=ka)]
             c["hist"] = [pool[0]] + [rng.choice(pool) for _ in range(rng.randint(2, 5))]
+            if rng.random() < 0.5:
+                # a call with a wrong-shaped elevation in the middle of the history (non-square grids matter)
+                c["hist"].insert(rng.randint(1, len(c["hist"]) - 1), dict(bad="rows"))
         if rng.random() < 0.6:
             c["lin"] = dict(a=rng.randint(-3, 3), b=rng.randint(-3, 3), x=[rng.randint(0, 6) for _ in range(n)],
                             y=[rng.randint(-4, 4) for _ in range(n)])
